@@ -22,6 +22,11 @@ CHECKS = {
     note='Trusted: z3, symx executor and its differentiation of the encoding. n>0 assumed. Joint (e,I) truncation of the medium-obliquity variants is read as total order 3 (their coefficient tables); only coefficients with I-order <= 2 are claimed.',
     technique='symbolic execution + symbolic differentiation of the encoding + z3 nonlinear real arithmetic (polynomial identities modulo circle constraints)',
     design='2/C14'),
+ 'C10': dict(
+    text='Bounded SMT validity checking: calculate_terms/collapse_modes executed symbolically with the real key structure of the tables and abstract non-negative entries (identities hold for any table values); z3 decides per-entry and collapsed heating == M(n dUdM - spin dUdO), per-entry sign, vanishing at e=0 for synchronous zero-obliquity, the (21/2) limit with the real tables, grouped == ungrouped totals (second encoding with grouping disabled by AST transform), arrays == scalars, and the Love-number call site.',
+    note='Trusted: z3, symx executor, AST transform that disables grouping. Rheology values abstracted as a function of frequency. Replays go through the public quick_tidal_dissipation API at generic parameters.',
+    technique='symbolic execution with table abstraction + z3 nonlinear real arithmetic with ite (sign/abs) and uninterpreted rheology function',
+    design='2/C10'),
 }
 NOT_YET = {}
 ALL = ['C%02d' % i for i in range(1, 21)]
